@@ -5,7 +5,7 @@ LEVEL = 'exploration'
 SHARDS = {'quick': 2, 'thorough': 16}
 BUDGET = {'quick': 60, 'thorough': 600}
 TECHNIQUE = 'runtime monitoring at the client boundary: helpers of sigtools.support compared with a native def of the same parameter list (signature round trips, and really calling it on every call shape with distinguishable values)'
-RULE = ('parameter lists of U({a,b,c},3) (quick: 260 seeded; thorough: all 1972, twice) decorated with defaults 10*i, annotations '
+RULE = ('parameter lists of U({a,b,c},3) (quick: 800 seeded; thorough: all 1972, six times) decorated with defaults 10*i, annotations '
         '(literals or names resolved in supplied globals) and a return annotation; s(text) in native, chevron, postponed and the 7 '
         'use_modifiers_* spellings, func_from_sig(sig), f(text) called on every shape (0..capacity+2 positionals x all keyword '
         'subsets incl. a foreign one), bind_callsig and sort_callsigs against really calling the native function, '
